@@ -180,7 +180,7 @@ func c17AbsRef(ref, ver string) (string, string) {
 var c17ConstraintFields = []string{"enum", "default", "uniqueItems", "exclusiveMinimum", "exclusiveMaximum", "minimum", "maximum",
 	"multipleOf", "minLength", "maxLength", "pattern", "minItems", "maxItems", "minProperties", "maxProperties", "additionalProperties", "readOnly", "writeOnly"}
 
-func jmap(v any) map[string]any { m, _ := v.(map[string]any); return m }
+func c17_jmap(v any) map[string]any { m, _ := v.(map[string]any); return m }
 
 func optStr(m map[string]any, k string) any {
 	if s, ok := m[k].(string); ok {
@@ -189,7 +189,7 @@ func optStr(m map[string]any, k string) any {
 	return nil
 }
 
-func sortedKeys(m map[string]any) []string {
+func c17_sortedKeys(m map[string]any) []string {
 	ks := make([]string, 0, len(m))
 	for k := range m {
 		ks = append(ks, k)
@@ -200,7 +200,7 @@ func sortedKeys(m map[string]any) []string {
 
 // c17AbsSchema: ver "2" = abs2S, "3" = abs3S. clearReq drops the node's own `required` list (form-field bookkeeping).
 func c17AbsSchema(v any, ver string, clearReq bool) any {
-	m := jmap(v)
+	m := c17_jmap(v)
 	if m == nil {
 		return nil
 	}
@@ -219,7 +219,7 @@ func c17AbsSchema(v any, ver string, clearReq bool) any {
 		disc = optStr(m, "discriminator")
 	} else {
 		nullable = m["nullable"] == true
-		if d := jmap(m["discriminator"]); d != nil {
+		if d := c17_jmap(m["discriminator"]); d != nil {
 			disc = optStr(d, "propertyName")
 		}
 	}
@@ -241,12 +241,12 @@ func c17AbsSchema(v any, ver string, clearReq bool) any {
 		}
 	}
 	kids := []any{}
-	if it := jmap(m["items"]); it != nil {
+	if it := c17_jmap(m["items"]); it != nil {
 		kids = append(kids, map[string]any{"slot": "items", "s": c17AbsSchema(it, ver, false)})
 	}
-	if ps := jmap(m["properties"]); ps != nil {
-		for _, k := range sortedKeys(ps) {
-			if jmap(ps[k]) == nil {
+	if ps := c17_jmap(m["properties"]); ps != nil {
+		for _, k := range c17_sortedKeys(ps) {
+			if c17_jmap(ps[k]) == nil {
 				continue
 			}
 			kids = append(kids, map[string]any{"slot": "prop:" + k, "s": c17AbsSchema(ps[k], ver, false)})
@@ -254,13 +254,13 @@ func c17AbsSchema(v any, ver string, clearReq bool) any {
 	}
 	if l, ok := m["allOf"].([]any); ok {
 		for i, x := range l {
-			if jmap(x) == nil {
+			if c17_jmap(x) == nil {
 				continue
 			}
 			kids = append(kids, map[string]any{"slot": "allOf:" + strconv.Itoa(i), "s": c17AbsSchema(x, ver, false)})
 		}
 	}
-	if ap := jmap(m["additionalProperties"]); ap != nil {
+	if ap := c17_jmap(m["additionalProperties"]); ap != nil {
 		kids = append(kids, map[string]any{"slot": "addl", "s": c17AbsSchema(ap, ver, false)})
 	}
 	return map[string]any{"ty": ty, "fmt": fmtv, "nullable": nullable, "disc": disc, "req": req, "sc": sc, "kids": kids}
@@ -285,7 +285,7 @@ func c17ParamCons2(p map[string]any) any {
 }
 
 func c17Input2(v any) any {
-	p := jmap(v)
+	p := c17_jmap(v)
 	if r, ok := p["$ref"].(string); ok {
 		k, n := c17AbsRef(r, "2")
 		return map[string]any{"k": "ref", "target": k, "name": n}
@@ -303,7 +303,7 @@ func c17Input2(v any) any {
 }
 
 func c17Param3(v any) any {
-	p := jmap(v)
+	p := c17_jmap(v)
 	if r, ok := p["$ref"].(string); ok {
 		k, n := c17AbsRef(r, "3")
 		return map[string]any{"k": "ref", "target": k, "name": n}
@@ -328,13 +328,13 @@ func contains(l []any, s string) bool {
 
 // the request inputs a v3 request body describes
 func c17Body3(v any) []any {
-	b := jmap(v)
+	b := c17_jmap(v)
 	if r, ok := b["$ref"].(string); ok {
 		k, n := c17AbsRef(r, "3")
 		return []any{map[string]any{"k": "ref", "target": k, "name": n}}
 	}
-	content := jmap(b["content"])
-	mimes := sortedKeys(content)
+	content := c17_jmap(b["content"])
+	mimes := c17_sortedKeys(content)
 	form := false
 	for _, m := range mimes {
 		if c17IsFormMime(m) {
@@ -343,11 +343,11 @@ func c17Body3(v any) []any {
 	}
 	var schema any
 	if len(mimes) > 0 {
-		schema = jmap(content[mimes[0]])["schema"]
+		schema = c17_jmap(content[mimes[0]])["schema"]
 		if form {
 			for _, m := range mimes {
 				if c17IsFormMime(m) {
-					schema = jmap(content[m])["schema"]
+					schema = c17_jmap(content[m])["schema"]
 					break
 				}
 			}
@@ -355,14 +355,14 @@ func c17Body3(v any) []any {
 	}
 	if form {
 		out := []any{}
-		s := jmap(schema)
+		s := c17_jmap(schema)
 		if s == nil || s["$ref"] != nil {
 			return out
 		}
 		objReq, _ := s["required"].([]any)
-		props := jmap(s["properties"])
-		for _, name := range sortedKeys(props) {
-			pm := jmap(props[name])
+		props := c17_jmap(s["properties"])
+		for _, name := range c17_sortedKeys(props) {
+			pm := c17_jmap(props[name])
 			if r, ok := pm["$ref"].(string); ok {
 				k, n := c17AbsRef(r, "3")
 				if strings.HasPrefix(r, "#/components/schemas/") {
@@ -376,45 +376,45 @@ func c17Body3(v any) []any {
 		return out
 	}
 	var s any
-	if jmap(schema) != nil {
+	if c17_jmap(schema) != nil {
 		s = c17AbsSchema(schema, "3", false)
 	}
 	return []any{map[string]any{"k": "body", "required": b["required"] == true, "schema": s}}
 }
 
 func c17Resp2(v any) any {
-	r := jmap(v)
+	r := c17_jmap(v)
 	if ref, ok := r["$ref"].(string); ok {
 		k, n := c17AbsRef(ref, "2")
 		return map[string]any{"ref": []any{k, n}}
 	}
 	desc, _ := r["description"].(string)
 	hs := []any{}
-	hm := jmap(r["headers"])
-	for _, name := range sortedKeys(hm) {
-		hs = append(hs, map[string]any{"name": name, "cons": c17ParamCons2(jmap(hm[name]))})
+	hm := c17_jmap(r["headers"])
+	for _, name := range c17_sortedKeys(hm) {
+		hs = append(hs, map[string]any{"name": name, "cons": c17ParamCons2(c17_jmap(hm[name]))})
 	}
 	return map[string]any{"desc": desc, "headers": hs, "schema": c17AbsSchema(r["schema"], "2", false)}
 }
 
 func c17Resp3(v any) any {
-	r := jmap(v)
+	r := c17_jmap(v)
 	if ref, ok := r["$ref"].(string); ok {
 		k, n := c17AbsRef(ref, "3")
 		return map[string]any{"ref": []any{k, n}}
 	}
 	desc, _ := r["description"].(string)
 	hs := []any{}
-	hm := jmap(r["headers"])
-	for _, name := range sortedKeys(hm) {
-		hs = append(hs, map[string]any{"name": name, "cons": c17AbsSchema(jmap(hm[name])["schema"], "3", false)})
+	hm := c17_jmap(r["headers"])
+	for _, name := range c17_sortedKeys(hm) {
+		hs = append(hs, map[string]any{"name": name, "cons": c17AbsSchema(c17_jmap(hm[name])["schema"], "3", false)})
 	}
 	var schema any
-	content := jmap(r["content"])
+	content := c17_jmap(r["content"])
 	// the property speaks of "the" schema of a response: every media type must carry the same one
 	var first string
-	for i, m := range sortedKeys(content) {
-		s := c17AbsSchema(jmap(content[m])["schema"], "3", false)
+	for i, m := range c17_sortedKeys(content) {
+		s := c17AbsSchema(c17_jmap(content[m])["schema"], "3", false)
 		if i == 0 {
 			schema, first = s, hx.Canon(s)
 		} else if hx.Canon(s) != first {
@@ -427,7 +427,7 @@ func c17Resp3(v any) any {
 var c17Methods = []string{"delete", "get", "head", "options", "patch", "post", "put"}
 
 func c17Sec2(v any) any {
-	s := jmap(v)
+	s := c17_jmap(v)
 	str := func(k string) string { x, _ := s[k].(string); return x }
 	switch str("type") {
 	case "basic":
@@ -443,7 +443,7 @@ func c17Sec2(v any) any {
 		if flow == "accessCode" || flow == "password" || flow == "application" {
 			tu = str("tokenUrl")
 		}
-		sc := jmap(s["scopes"])
+		sc := c17_jmap(s["scopes"])
 		if sc == nil {
 			sc = map[string]any{}
 		}
@@ -453,7 +453,7 @@ func c17Sec2(v any) any {
 }
 
 func c17Sec3(v any) any {
-	s := jmap(v)
+	s := c17_jmap(v)
 	str := func(m map[string]any, k string) string { x, _ := m[k].(string); return x }
 	switch str(s, "type") {
 	case "http":
@@ -464,18 +464,18 @@ func c17Sec3(v any) any {
 	case "apiKey":
 		return map[string]any{"kind": "apiKey", "in": str(s, "in"), "pname": str(s, "name")}
 	case "oauth2":
-		flows := jmap(s["flows"])
+		flows := c17_jmap(s["flows"])
 		names := [][2]string{{"implicit", "implicit"}, {"authorizationCode", "accessCode"}, {"password", "password"}, {"clientCredentials", "application"}}
 		var found []([2]string)
 		for _, n := range names {
-			if jmap(flows[n[0]]) != nil {
+			if c17_jmap(flows[n[0]]) != nil {
 				found = append(found, n)
 			}
 		}
 		if len(found) != 1 {
 			return map[string]any{"kind": "other", "what": "oauth2 flows"}
 		}
-		f := jmap(flows[found[0][0]])
+		f := c17_jmap(flows[found[0][0]])
 		flow := found[0][1]
 		au, tu := "", ""
 		if flow == "implicit" || flow == "accessCode" {
@@ -484,7 +484,7 @@ func c17Sec3(v any) any {
 		if flow != "implicit" {
 			tu = str(f, "tokenUrl")
 		}
-		sc := jmap(f["scopes"])
+		sc := c17_jmap(f["scopes"])
 		if sc == nil {
 			sc = map[string]any{}
 		}
@@ -495,11 +495,11 @@ func c17Sec3(v any) any {
 
 func c17Api2(d map[string]any) any {
 	ops, pathParams := []any{}, []any{}
-	paths := jmap(d["paths"])
-	for _, p := range sortedKeys(paths) {
-		pi := jmap(paths[p])
+	paths := c17_jmap(d["paths"])
+	for _, p := range c17_sortedKeys(paths) {
+		pi := c17_jmap(paths[p])
 		for _, m := range c17Methods {
-			op := jmap(pi[m])
+			op := c17_jmap(pi[m])
 			if op == nil {
 				continue
 			}
@@ -508,8 +508,8 @@ func c17Api2(d map[string]any) any {
 				inputs = append(inputs, c17Input2(x))
 			}
 			resps := []any{}
-			rm := jmap(op["responses"])
-			for _, st := range sortedKeys(rm) {
+			rm := c17_jmap(op["responses"])
+			for _, st := range c17_sortedKeys(rm) {
 				resps = append(resps, map[string]any{"status": st, "r": c17Resp2(rm[st])})
 			}
 			opId, _ := op["operationId"].(string)
@@ -524,18 +524,18 @@ func c17Api2(d map[string]any) any {
 		}
 	}
 	shared := []any{}
-	sp := jmap(d["parameters"])
-	for _, k := range sortedKeys(sp) {
+	sp := c17_jmap(d["parameters"])
+	for _, k := range c17_sortedKeys(sp) {
 		shared = append(shared, map[string]any{"name": k, "input": c17Input2(sp[k])})
 	}
 	sresps := []any{}
-	sr := jmap(d["responses"])
-	for _, k := range sortedKeys(sr) {
+	sr := c17_jmap(d["responses"])
+	for _, k := range c17_sortedKeys(sr) {
 		sresps = append(sresps, map[string]any{"name": k, "r": c17Resp2(sr[k])})
 	}
 	defs := []any{}
-	dm := jmap(d["definitions"])
-	for _, k := range sortedKeys(dm) {
+	dm := c17_jmap(d["definitions"])
+	for _, k := range c17_sortedKeys(dm) {
 		defs = append(defs, map[string]any{"name": k, "schema": c17AbsSchema(dm[k], "2", false)})
 	}
 	host, _ := d["host"].(string)
@@ -554,8 +554,8 @@ func c17Api2(d map[string]any) any {
 		}
 	}
 	secs := []any{}
-	sm := jmap(d["securityDefinitions"])
-	for _, k := range sortedKeys(sm) {
+	sm := c17_jmap(d["securityDefinitions"])
+	for _, k := range c17_sortedKeys(sm) {
 		secs = append(secs, map[string]any{"name": k, "s": c17Sec2(sm[k])})
 	}
 	return map[string]any{"ops": ops, "pathParams": pathParams, "shared": shared, "sharedResponses": sresps, "defs": defs, "servers": servers, "security": secs}
@@ -563,11 +563,11 @@ func c17Api2(d map[string]any) any {
 
 func c17Api3(d map[string]any) any {
 	ops, pathParams := []any{}, []any{}
-	paths := jmap(d["paths"])
-	for _, p := range sortedKeys(paths) {
-		pi := jmap(paths[p])
+	paths := c17_jmap(d["paths"])
+	for _, p := range c17_sortedKeys(paths) {
+		pi := c17_jmap(paths[p])
 		for _, m := range c17Methods {
-			op := jmap(pi[m])
+			op := c17_jmap(pi[m])
 			if op == nil {
 				continue
 			}
@@ -575,12 +575,12 @@ func c17Api3(d map[string]any) any {
 			for _, x := range jlist(op["parameters"]) {
 				inputs = append(inputs, c17Param3(x))
 			}
-			if rb := jmap(op["requestBody"]); rb != nil {
+			if rb := c17_jmap(op["requestBody"]); rb != nil {
 				inputs = append(inputs, c17Body3(rb)...)
 			}
 			resps := []any{}
-			rm := jmap(op["responses"])
-			for _, st := range sortedKeys(rm) {
+			rm := c17_jmap(op["responses"])
+			for _, st := range c17_sortedKeys(rm) {
 				resps = append(resps, map[string]any{"status": st, "r": c17Resp3(rm[st])})
 			}
 			opId, _ := op["operationId"].(string)
@@ -594,22 +594,22 @@ func c17Api3(d map[string]any) any {
 			pathParams = append(pathParams, map[string]any{"path": p, "inputs": inputs})
 		}
 	}
-	comps := jmap(d["components"])
+	comps := c17_jmap(d["components"])
 	shared := []any{}
-	cp := jmap(comps["parameters"])
-	for _, k := range sortedKeys(cp) {
+	cp := c17_jmap(comps["parameters"])
+	for _, k := range c17_sortedKeys(cp) {
 		shared = append(shared, map[string]any{"name": k, "input": c17Param3(cp[k])})
 	}
-	cb := jmap(comps["requestBodies"])
-	for _, k := range sortedKeys(cb) {
+	cb := c17_jmap(comps["requestBodies"])
+	for _, k := range c17_sortedKeys(cb) {
 		for _, in := range c17Body3(cb[k]) {
 			shared = append(shared, map[string]any{"name": k, "input": in})
 		}
 	}
 	defs := []any{}
-	cs := jmap(comps["schemas"])
-	for _, k := range sortedKeys(cs) {
-		s := jmap(cs[k])
+	cs := c17_jmap(comps["schemas"])
+	for _, k := range c17_sortedKeys(cs) {
+		s := c17_jmap(cs[k])
 		if fn, ok := s["x-formData-name"].(string); ok {
 			req, _ := s["required"].([]any)
 			shared = append(shared, map[string]any{"name": k, "input": map[string]any{"k": "form", "name": fn, "required": contains(req, fn), "cons": c17AbsSchema(s, "3", true)}})
@@ -618,13 +618,13 @@ func c17Api3(d map[string]any) any {
 		defs = append(defs, map[string]any{"name": k, "schema": c17AbsSchema(s, "3", false)})
 	}
 	sresps := []any{}
-	cr := jmap(comps["responses"])
-	for _, k := range sortedKeys(cr) {
+	cr := c17_jmap(comps["responses"])
+	for _, k := range c17_sortedKeys(cr) {
 		sresps = append(sresps, map[string]any{"name": k, "r": c17Resp3(cr[k])})
 	}
 	servers := []any{}
 	for _, s := range jlist(d["servers"]) {
-		us, _ := jmap(s)["url"].(string)
+		us, _ := c17_jmap(s)["url"].(string)
 		u, err := url.Parse(us)
 		if err != nil {
 			servers = append(servers, map[string]any{"scheme": "?", "host": us, "base": ""})
@@ -633,8 +633,8 @@ func c17Api3(d map[string]any) any {
 		servers = append(servers, map[string]any{"scheme": u.Scheme, "host": u.Host, "base": u.Path})
 	}
 	secs := []any{}
-	sm := jmap(comps["securitySchemes"])
-	for _, k := range sortedKeys(sm) {
+	sm := c17_jmap(comps["securitySchemes"])
+	for _, k := range c17_sortedKeys(sm) {
 		secs = append(secs, map[string]any{"name": k, "s": c17Sec3(sm[k])})
 	}
 	return map[string]any{"ops": ops, "pathParams": pathParams, "shared": shared, "sharedResponses": sresps, "defs": defs, "servers": servers, "security": secs}
@@ -677,7 +677,7 @@ func c17Same(a, b any) bool {
 
 // c17Diff names the first differing part of two Api values (for the detail line).
 func c17Diff(a, b any) string {
-	am, bm := jmap(a), jmap(b)
+	am, bm := c17_jmap(a), c17_jmap(b)
 	if am == nil || bm == nil {
 		return fmt.Sprintf("%s vs %s", trunc(hx.Canon(a)), trunc(hx.Canon(b)))
 	}
@@ -960,7 +960,7 @@ func (g *g17) schema(depth int, density int) map[string]any {
 			m["properties"] = props
 			if g.r.Chance(40) {
 				req := []any{}
-				for _, k := range sortedKeys(props) {
+				for _, k := range c17_sortedKeys(props) {
 					if g.r.Chance(60) {
 						req = append(req, k)
 					}
@@ -970,9 +970,9 @@ func (g *g17) schema(depth int, density int) map[string]any {
 				}
 			}
 			if !g.clean && g.r.Chance(10) {
-				ks := sortedKeys(props)
+				ks := c17_sortedKeys(props)
 				m["discriminator"] = ks[0]
-				pm := jmap(props[ks[0]])
+				pm := c17_jmap(props[ks[0]])
 				if pm["$ref"] == nil {
 					props[ks[0]] = map[string]any{"type": "string"}
 				}
@@ -1036,7 +1036,7 @@ func (g *g17) formParam(name string, density int) map[string]any {
 	delete(p, "required")
 	if g.clean {
 		delete(p, "format")
-		if it := jmap(p["items"]); it != nil {
+		if it := c17_jmap(p["items"]); it != nil {
 			_ = it
 		}
 	} else if g.r.Chance(35) {
@@ -1370,7 +1370,7 @@ func (g *g17) randomDoc() map[string]any {
 	g.defs = nil
 	for _, n := range allDefs {
 		defs[n] = g.schema(3, density) // may reference earlier definitions only
-		if jmap(defs[n])["$ref"] != nil {
+		if c17_jmap(defs[n])["$ref"] != nil {
 			defs[n] = map[string]any{"type": "object", "properties": map[string]any{"r": defs[n]}}
 		}
 		if strings.ContainsAny(n, " /") {
@@ -1571,7 +1571,7 @@ func c17Shrinks(v any, budget *int) []any {
 	var out []any
 	switch x := v.(type) {
 	case map[string]any:
-		for _, k := range sortedKeys(x) {
+		for _, k := range c17_sortedKeys(x) {
 			if c17Protected[k] {
 				continue
 			}
@@ -1583,7 +1583,7 @@ func c17Shrinks(v any, budget *int) []any {
 			}
 			out = append(out, n)
 		}
-		for _, k := range sortedKeys(x) {
+		for _, k := range c17_sortedKeys(x) {
 			if *budget <= 0 {
 				break
 			}
@@ -1631,7 +1631,7 @@ func c17WellFormed(d map[string]any) bool {
 			if r, isRef := x["$ref"].(string); isRef {
 				for _, sec := range []string{"definitions", "parameters", "responses"} {
 					if strings.HasPrefix(r, "#/"+sec+"/") {
-						if jmap(d[sec])[r[len(sec)+3:]] == nil {
+						if c17_jmap(d[sec])[r[len(sec)+3:]] == nil {
 							ok = false
 						}
 					}
@@ -1647,22 +1647,22 @@ func c17WellFormed(d map[string]any) bool {
 		}
 	}
 	walk(d)
-	for p, piv := range jmap(d["paths"]) {
-		pi := jmap(piv)
+	for p, piv := range c17_jmap(d["paths"]) {
+		pi := c17_jmap(piv)
 		nops := 0
 		for _, m := range c17Methods {
-			op := jmap(pi[m])
+			op := c17_jmap(pi[m])
 			if op == nil {
 				continue
 			}
 			nops++
-			if len(jmap(op["responses"])) == 0 {
+			if len(c17_jmap(op["responses"])) == 0 {
 				ok = false
 			}
 			hasID, hasForm := false, false
 			for _, l := range [][]any{jlist(op["parameters"]), jlist(pi["parameters"])} {
 				for _, q := range l {
-					qm := jmap(q)
+					qm := c17_jmap(q)
 					if qm["in"] == "path" && qm["name"] == "id" {
 						hasID = true
 					}
@@ -1670,7 +1670,7 @@ func c17WellFormed(d map[string]any) bool {
 						hasForm = true
 					}
 					if r, isRef := qm["$ref"].(string); isRef && strings.HasPrefix(r, "#/parameters/") {
-						if jmap(jmap(d["parameters"])[r[len("#/parameters/"):]])["in"] == "formData" {
+						if c17_jmap(c17_jmap(d["parameters"])[r[len("#/parameters/"):]])["in"] == "formData" {
 							hasForm = true
 						}
 					}
@@ -1690,14 +1690,14 @@ func c17WellFormed(d map[string]any) bool {
 			ok = false
 		}
 	}
-	return ok && len(jmap(d["paths"])) > 0
+	return ok && len(c17_jmap(d["paths"])) > 0
 }
 
 func shrinkC17(c hx.Case) []hx.Case {
 	budget := 400
 	var out []hx.Case
 	for _, d := range c17Shrinks(c["doc"], &budget) {
-		if dm := jmap(d); dm != nil && c17WellFormed(dm) {
+		if dm := c17_jmap(d); dm != nil && c17WellFormed(dm) {
 			out = append(out, hx.Case{"doc": d})
 		}
 	}
